@@ -492,6 +492,9 @@ def case_random(ctx, i):
         tb = traceback.format_exc()
         if '/tenpy/' not in tb:
             raise
+        if "can't determine all charges" in str(e) and np.linalg.norm(ref) < 1e-12:
+            ctx.count('models.vanishing_operator')  # the recorded terms cancel exactly (e.g. C_i C_j + C_j C_i): H = 0 cannot be built
+            raise _Skip()
         ctx.violation('random-model:raises-%s' % type(e).__name__, tb[-700:], case)
         return
     kinds = sorted(set(c[0] for c in calls))
